@@ -792,7 +792,10 @@ class Gen:
             e, cdim = rng.choice(cands)
         fr = e.denominator != 1
         base = self.tree(depth - 1, cdim, kind, None, positive=fr)
-        if fr and base["k"] != "leaf" and rng.random() < 0.8:
+        # a negative base with a fractional exponent: UnitValue raises (TypeError from float(complex)), the model agrees —
+        # kept in 20 % of the quantity cases; for plain numbers Python silently continues with complex numbers, which is
+        # outside the property (no quantity involved), so number bases are always made non-negative
+        if fr and base["k"] != "leaf" and (kind == "num" or rng.random() < 0.8):
             base = {"k": "abs", "a": base}
         py = "float" if fr or rng.random() < 0.2 else "int"
         return {"k": "pow", "a": base, "b": {"k": "leaf", "t": "num", "v": rstr(e), "py": py}}
